@@ -62,6 +62,9 @@ pub enum Vote {
 pub struct VoteRequest {
     node_id: String,
     priority: Priority,
+    /// identifies the election round of the candidate this request belongs to
+    #[serde(default, skip_serializing_if = "Option::is_none")]
+    round: Option<u64>,
 }
 
 #[derive(Debug, Clone, Copy, PartialEq, Eq, Serialize, Deserialize)]
@@ -84,6 +87,9 @@ impl Ord for Priority {
 #[serde(rename_all = "camelCase")]
 pub struct VoteResponse {
     node_id: String,
+    /// the round of the request this vote answers
+    #[serde(default, skip_serializing_if = "Option::is_none")]
+    round: Option<u64>,
 }
 
 #[derive(Debug, Clone, PartialEq, Eq, Serialize, Deserialize)]
